@@ -46,6 +46,10 @@ pub struct FbCase {
     /// turned into a response there and the outer call succeeds with it
     #[serde(default)]
     pub nested_backup: bool,
+    /// another strategy setter is called on the builder before the cell's own one (defaults
+    /// first, override later): the strategy configured last is the configured strategy
+    #[serde(default)]
+    pub strategy_decoy: bool,
 }
 
 fn default_backup_code() -> u32 {
@@ -65,9 +69,9 @@ fn case_strategy(_tier: Tier) -> BoxedStrategy<FbCase> {
         any::<bool>(),
         prop::collection::vec((0u8..3, 0u8..3), 0..=3),
         prop_oneof![2 => Just(0u8), 1 => Just(1u8), 1 => Just(2u8)],
-        (prop_oneof![2 => Just(0u8), 1 => 1u8..=3], prop::bool::weighted(0.3)),
+        (prop_oneof![2 => Just(0u8), 1 => 1u8..=3], prop::bool::weighted(0.3), prop::bool::weighted(0.3)),
     )
-        .prop_map(|(req_id, req_key, req_tag, value_serial, code_a, code_b, lat, backup_code, handle_first, more_calls, group_mode, (listeners, nested_backup))| FbCase {
+        .prop_map(|(req_id, req_key, req_tag, value_serial, code_a, code_b, lat, backup_code, handle_first, more_calls, group_mode, (listeners, nested_backup, strategy_decoy))| FbCase {
             req_id,
             req_key,
             req_tag,
@@ -81,6 +85,7 @@ fn case_strategy(_tier: Tier) -> BoxedStrategy<FbCase> {
             group_mode,
             listeners,
             nested_backup,
+            strategy_decoy,
         })
         .boxed()
 }
@@ -196,6 +201,20 @@ async fn run_grid(case: &FbCase) -> (Vec<String>, usize, Vec<serde_json::Value>)
                         let asked = asked.clone();
                         b.handle(move |_e: &SErr| asked.fetch_add(1, Ordering::SeqCst) % 2 == 0)
                     }
+                    };
+                }
+                if case.strategy_decoy {
+                    // never to be seen: the cell's own setter below replaces it
+                    b = if strat == 0 {
+                        b.exception(|e: SErr| SErr {
+                            code: e.code + 7_000,
+                            serial: e.serial,
+                        })
+                    } else {
+                        b.value(Resp {
+                            serial: 666_000_000_000,
+                            req: zero_req(),
+                        })
                     };
                 }
                 b = match strat {
@@ -591,6 +610,9 @@ impl Property for C17 {
         }
         if case.nested_backup {
             r.class("backup_goes_through_a_second_fallback_layer");
+        }
+        if case.strategy_decoy {
+            r.class("another_strategy_set_first_then_overridden");
         }
         if !case.more_calls.is_empty() {
             r.class("several_calls_per_cell");
